@@ -22,6 +22,7 @@ GROUPS = {
         "package": "zydeco-statics",
         "mods": {
             "lang/statics/src/builtin.rs": "statics_builtin.rs",
+            "lang/statics/src/query.rs": "gen:statics_literal.rs",
         },
     },
     "dynamics": {
@@ -66,7 +67,7 @@ TRUSTED_BASE = [
 PROPERTIES = {
     "C05": {
         "level": "model_checking",
-        "requires_gen": ["surface_actions"],
+        "requires_gen": ["surface_actions", "statics_literal"],
         "explanation": (
             "Bounded model checking (Kani/CBMC) of the real literal-carrier, range-check and numeric host-operation "
             "code over fully symbolic operands: every i128 literal value against all 8 integer types, every binary64 "
@@ -78,7 +79,7 @@ PROPERTIES = {
         ],
         "outside": [
             "Float to_string / decimal text -> f64 (dec2flt, Grisu) are not encoded",
-            "the Int64/Float64 defaulting rule and 'no implicit conversions' at the type-checker level (Tm::Lit arm, salsa literal query)",
+            "'no implicit conversions' at the type-checker level in checking position (Tm::Lit Ana arm of check/mod.rs: reads the type arena); the defaulting rule is decided on the literal match block copied out of the salsa query `literal_syn_judgment`, not through the query itself",
             "end-to-end path source literal -> printed value",
         ],
     },
